@@ -1,7 +1,8 @@
 import PsycheModel.Declaration
 import PsycheModel.DeclParser
 /-! Line driver for the declaration parser model (C04): the COMPOSITION of the declarator parser model (`DeclParser.parseDeclarator`) with the
-declaration model (`Declaration.declaration`).  Input: blank-separated tokens: `s` specifier, `typedef`, the declarator tokens
+declaration model (`Declaration.declaration`).  Input: blank-separated tokens: `s` type specifier, `q` another specifier (qualifier, storage
+class, alignment), `g` a tag declaration (`struct S { … }`), `typedef`, the declarator tokens
 `* ( ) [ ] 3 x c ...` (`x` identifier, `c` a qualifier, `3` a number), `,`, `=`, `i` initializer, `;`, `b` compound statement; an `s` after
 the first declarator token is a parameter's specifier.  Output: `<kind> <number of specifiers> <declarator shape>[=] ...` with shapes over
 I(dentifier) P(ointer) A(rray) F(unction) R(parenthesized), or `FAIL`.  The whole string must be consumed. -/
@@ -32,9 +33,14 @@ partial def shape : Decl → String
   | .ident _ => "I" | .abstract => "?" | .bitfield d => "B(" ++ shape d ++ ")"
   | .ptr _ d => "P(" ++ shape d ++ ")" | .paren d => "R(" ++ shape d ++ ")" | .arr d => "A(" ++ shape d ++ ")" | .fn d _ _ => "F(" ++ shape d ++ ")"
 
+def isSpecWord (w : String) : Bool := w == "s" || w == "typedef" || w == "q" || w == "g"
+def specTok (w : String) : Tok :=
+  if w == "typedef" then .tdef else if w == "q" then .sp 0 else if w == "g" then .tagd 0 else .ty 0
+
 def showID (x : ID) : String := shape x.d ++ (if x.init.isSome then "=" else "")
 
 def showR : R → String
+  | .incomplete [.tagd _] => "Tag"              -- a tag declaration by itself is delivered as the TagDeclaration node
   | .incomplete ss => s!"Incomplete {ss.length}"
   | .typedefDecl ss ids => s!"Typedef {ss.length}" ++ String.join (ids.map (fun x => " " ++ showID x))
   | .varDecl ss ids => s!"Variable {ss.length}" ++ String.join (ids.map (fun x => " " ++ showID x))
@@ -42,9 +48,9 @@ def showR : R → String
 
 def handle (line : String) : String :=
   let ws := (line.trimAscii.toString.splitOn " ").filter (· ≠ "")
-  let sp := ws.takeWhile (fun w => w == "s" || w == "typedef")
+  let sp := ws.takeWhile isSpecWord
   let rest := ws.drop sp.length
-  let spt : List Tok := sp.map (fun w => if w == "typedef" then Tok.tdef else Tok.sp 0)
+  let spt : List Tok := sp.map specTok
   let lifted : Option (List Tok) := if rest == [";"] then some [.semi] else lift rest
   match lifted with
   | none => "FAIL"
@@ -59,9 +65,9 @@ partial def liftUnit (ws : List String) : Option (List Tok) :=
   | [] => some []
   | ";" :: r => (liftUnit r).map (fun l => Tok.semi :: l)
   | _ =>
-    let sp := ws.takeWhile (fun w => w == "s" || w == "typedef")
+    let sp := ws.takeWhile isSpecWord
     let rest := ws.drop sp.length
-    let spt : List Tok := sp.map (fun w => if w == "typedef" then Tok.tdef else Tok.sp 0)
+    let spt : List Tok := sp.map specTok
     if sp.isEmpty then none
     else match rest with
       | ";" :: r => (liftUnit r).map (fun l => spt ++ Tok.semi :: l)
